@@ -193,54 +193,10 @@ type boundsOf struct {
 	rect s2.Rect
 	cap  s2.Cap
 	cu   []s2.CellID
-	// longEdge: the region has an edge longer than 2.6 rad (149°) whose
-	// latitude extremum lies inside the edge and whose rectangle falls short of
-	// that extremum (computed at high precision) by more than 2 eps: the
-	// signature of the ill-conditioned "latitude budget" of long edges. A
-	// latitude miss is then labelled with that narrow class.
+	// longEdge: the region has an edge longer than 2.6 rad (149°). A latitude
+	// miss of such a region is labelled with the narrow class of the
+	// ill-conditioned "latitude budget" (asin near 1) of long edges.
 	longEdge bool
-}
-
-// longEdgeShortfall reports whether some edge longer than 2.6 rad has its
-// latitude extremum inside the edge while r stops more than 2 eps short of it.
-func longEdgeShortfall(v []r3.Vector, closed bool, r s2.Rect) bool {
-	n := len(v)
-	m := n
-	if !closed {
-		m = n - 1
-	}
-	for i := 0; i < m; i++ {
-		a, b := v[i], v[(i+1)%n]
-		if a.Dot(b) >= -0.857 {
-			continue
-		}
-		A, B := hp.Vec(a), hp.Vec(b)
-		nn := A.Cross(B)
-		if nn.IsZero() {
-			continue
-		}
-		nxy := hp.Float(hp.Sqrt(hp.Add(hp.Mul(nn[0], nn[0]), hp.Mul(nn[1], nn[1]))))
-		nz := math.Abs(hp.Float(nn[2]))
-		trueMax := math.Atan2(nxy, nz)
-		// the endpoints themselves: a negative budget can pull the interval inside them
-		la := s2.LatLngFromPoint(s2.Point{Vector: a}).Lat.Radians()
-		lb := s2.LatLngFromPoint(s2.Point{Vector: b}).Lat.Radians()
-		if r.Lat.Hi < math.Max(la, lb) || r.Lat.Lo > math.Min(la, lb) {
-			return true
-		}
-		for _, sgn := range []float64{1, -1} {
-			if _, in := hpLatExtremum(s2.Point{Vector: a}, s2.Point{Vector: b}, sgn); !in {
-				continue
-			}
-			if sgn > 0 && r.Lat.Hi < trueMax-2*eps {
-				return true
-			}
-			if sgn < 0 && r.Lat.Lo > -trueMax+2*eps {
-				return true
-			}
-		}
-	}
-	return false
 }
 
 // hasLongEdge: some consecutive pair of the chain is more than 2.6 rad apart.
@@ -884,7 +840,7 @@ func checkLoopBounds(c loopCase) ev.Outcome {
 		}
 	}
 	b := regionBounds(l)
-	b.longEdge = hasLongEdge(chain, true) && longEdgeShortfall(chain, true, b.rect)
+	b.longEdge = hasLongEdge(chain, true)
 	o.Class = fmt.Sprintf("%s/inv=%v/%s", c.L.Kind, c.L.Inverted, rectShape(b.rect))
 	contained, near := 0, 0
 	for i, pp := range c.Probes {
@@ -915,5 +871,5 @@ func checkLoopBounds(c loopCase) ev.Outcome {
 func init() {
 	ev.Define("loop_bounds", ev.Options{
 		Rule: "loops valid by construction (regular/star/lattice/cell loops, 1/8 inverted; star loops with a vertex at the pole or 1e-300..1e-9 rad from it; loops with an edge on (nearly) opposite meridians passing through or within a hair of a pole, longitude span pi-eta..pi; convex loops on a small circle grazing a pole; triangles/quads with vertices 2e-16..0.1 rad from antipodal); ~29 probes each: vertices, high-precision points on edges and at each edge's latitude extremum +-4 ulps, seam points (y = 0, +-5e-324, tiny), poles and near-poles, cell centres, interior points. Truth = exact crossing parity from the construction's inside point (never Loop.ContainsPoint). Every truly contained probe must be in RectBound (computed lat/lng), CapBound and CellUnionBound. Non-trivial = a contained probe lies within 1e-15 rad of an edge interior and the rectangle is not full.",
-		Quick: 16000, Thorough: 600000}, genLoopCase, checkLoopBounds)
+		Quick: 24000, Thorough: 800000}, genLoopCase, checkLoopBounds)
 }
